@@ -52,3 +52,39 @@ package launch
 //@   ensures [suffrage] !(r.clientid != nil && fourth(r.clientid.Rule(addr, handler, hint))) && !(r.nets != nil && fourth(r.nets.Rule(addr, handler, hint))) && !(hint.Node != nil && r.nodes != nil && fourth(r.nodes.Rule(addr, handler, hint))) && hint.Node != nil && r.suffrage != nil && fourth(r.suffrage.Rule(addr, handler, hint)) ==> r2 == "suffrage" && r1 == snd(r.suffrage.Rule(addr, handler, hint)) && r4
 //@   ensures [fallback] !(r.clientid != nil && fourth(r.clientid.Rule(addr, handler, hint))) && !(r.nets != nil && fourth(r.nets.Rule(addr, handler, hint))) && !(hint.Node != nil && r.nodes != nil && fourth(r.nodes.Rule(addr, handler, hint))) && !(hint.Node != nil && r.suffrage != nil && fourth(r.suffrage.Rule(addr, handler, hint))) ==> r2 == "defaultmap" || r2 == "default"
 //@   ensures [no-hint-no-node-rule] hint.Node == nil ==> r2 != "node" && r2 != "suffrage"
+
+// the mode of a limiter follows its rule: no limit for rate.Inf, reject
+// everything for a zero rate or burst, a token bucket of (limit, burst) otherwise
+//@ package golang.org/x/time/rate
+//@ func NewLimiter
+//@   trusted
+//@   ensures r0 != nil && r0.Limit() == r && r0.Burst() == b
+//@ func (*Limiter).Limit
+//@   trusted
+//@   pure
+//@ func (*Limiter).Burst
+//@   trusted
+//@   pure
+//@ func (*Limiter).Allow
+//@   trusted
+//@ package github.com/spikeekips/mitum/launch
+
+//@ func (*RateLimiter).Update
+//@   prop C36
+//@   requires r != nil && (r.Limiter != nil ==> !r.nolimit && r.Limiter.Limit() != rate.Inf && r.Limiter.Limit() != 0 && r.Limiter.Burst() >= 1)
+//@   modifies r.nolimit, r.Limiter, r.t, r.checksum, r.updatedAt, r.desc
+//@   ensures [nolimit] limit == rate.Inf ==> r.nolimit && r.Limiter == nil
+//@   ensures [reject] limit != rate.Inf && (limit == 0 || burst < 1) ==> !r.nolimit && r.Limiter == nil
+//@   ensures [limited] limit != rate.Inf && limit != 0 && burst >= 1 ==> !r.nolimit && r.Limiter != nil && r.Limiter.Limit() == limit && r.Limiter.Burst() == burst
+//@   ensures r0 == r
+
+//@ func NewRateLimiter
+//@   prop C36
+//@   ensures [nolimit] limit == rate.Inf ==> r0.nolimit && r0.Limiter == nil
+//@   ensures [reject] limit != rate.Inf && (limit == 0 || burst < 1) ==> !r0.nolimit && r0.Limiter == nil
+//@   ensures [limited] limit != rate.Inf && limit != 0 && burst >= 1 ==> !r0.nolimit && r0.Limiter != nil && r0.Limiter.Limit() == limit && r0.Limiter.Burst() == burst
+
+//@ func (*RateLimiter).Allow
+//@   prop C36
+//@   requires r != nil
+//@   ensures r.Limiter == nil ==> r0 == r.nolimit
